@@ -181,7 +181,12 @@ class Variants:
             skw['postlex'] = make_indenter(mod.Indenter)
         if 'transformer' in skw:
             skw['transformer'] = make_transformer(mod.Transformer, skw['transformer']._names)
+        # another instance of the same module built first with other load-time options: what one Lark_StandAlone(...) call
+        # was given must not leak into the next one
+        decoy = mod.Lark_StandAlone(propagate_positions=not opts.get('propagate_positions', False), debug=True)
+        self.ctx.count('standalone-decoy-instances')
         out['standalone'] = mod.Lark_StandAlone(**skw)
+        out['standalone-2nd-instance'] = mod.Lark_StandAlone(**skw)
         os.unlink(mp)
         return out
 
@@ -242,6 +247,19 @@ KW.3: "print" | "let"i
 %ignore WS
 '''
 T_RICH = ['let x = 1 + a;', 'LET y = [1, b, (c)];', 'print a, b + 2;', '{ let q = -3; print q; }', 'print;', 'let = 1;', 'a +;', '{', 'let x = [1,];', 'print x\n, y;\n{ }', '$', 'let x = 1 + + 2;', '']
+
+
+# flag sets that are not subsets of each other (the keyword exception compares flag *sets*)
+G_FLAGS = r'''
+start: (KW | NAME | OP | NUM)+
+KW: "if"i | "Else"
+NAME: /[a-z]+/s
+OP: "and"i
+NUM.2: /0x[0-9a-f]+/i | /[0-9]+/
+WORD2: /[A-Z]+/m
+%ignore /[ \n]+/
+'''
+T_FLAGS = ['if x', 'IF x', 'If AND y', 'else', 'Else 0XFF', 'iF\nand\n12', 'ELSE', 'x and y', 'AND', '0xg', '']
 
 
 def many_terminals(rng):
@@ -378,6 +396,7 @@ def run_batch(ctx):
         run_case(ctx, V, G_TREE, {'propagate_positions': bool(b & 2), 'lexer': ['contextual', 'basic'][b & 1]}, {'postlex': make_indenter(Indenter)}, T_TREE)
         g, texts = many_terminals(rng)
         run_case(ctx, V, g, dict(rng.choice(OPTSETS[:6])), {}, texts, ['>100-terminals'])
+        run_case(ctx, V, G_FLAGS, dict(OPTSETS[b % 2]), {}, T_FLAGS)
         run_case(ctx, V, G_RICH.replace('%import common.WS\n%ignore WS', '%ignore /[ \\n]+/'), {'use_bytes': True, 'propagate_positions': True, 'lexer': ['contextual', 'basic'][b & 1]}, {}, [t for t in T_RICH if t.isascii()])
         for i in range(PER_BATCH[ctx.tier]):
             if not ctx.time_left():
